@@ -346,13 +346,37 @@ def special_population_case(case):
         empty_sub = Core.Environment(m, 'sub0')
         one_sub = Core.Environment(m, 'sub1')
         one_sub.add_agent(Core.Agent('inner', m))
-        agents = [Core.Agent('p', m, tag=1), empty_sub, one_sub, Bag('bag', m, tag=1), Core.Agent('q', m)]
-        for a, ts in zip(agents, ('X', 'XY', 'XYZ', 'X', 'Y')):
+        class Herd(Core.Agent):
+            """A composite agent that answers `member in herd` for its own purposes."""
+            members = ('m1',)
+
+            def __contains__(self, item):
+                return item in self.members
+
+        class Greedy(Core.Agent):
+            def __contains__(self, item):      # claims to contain everything
+                return True
+
+        agents = [Core.Agent('p', m, tag=1), empty_sub, one_sub, Bag('bag', m, tag=1), Core.Agent('q', m),
+                  Herd('herd', m, tag=2), Greedy('greedy', m, tag=2)]
+        for a, ts in zip(agents, ('X', 'XY', 'XYZ', 'X', 'Y', 'XY', 'Y')):
             for t in ts:
                 a.add_component(TYPES[t](a, m))
         for a in agents:
             env.add_agent(a)
         tmpls = TEMPLATES
+    elif case['how'] == 'compound_tags':
+        # tags that are tuples (a species / role pair): a tag filter selects the agents with PRECISELY that tag
+        env = m.environment
+        agents = [Core.Agent('one', m, tag=1), Core.Agent('pair', m, tag=(1, 2)), Core.Agent('two', m, tag=2),
+                  Core.Agent('riap', m, tag=(2, 1)), Core.Agent('pair2', m, tag=(1, 2))]
+        for a, ts in zip(agents, ('X', 'X', 'XY', 'Y', 'XY')):
+            for t in ts:
+                a.add_component(TYPES[t](a, m))
+        for a in agents:
+            env.add_agent(a)
+        tmpls = [(), ('X',), ('X', 'Y')]
+        tags = (None, 1, 2, (1, 2), (2, 1), (2,), (1, 2, 3), 0)
     else:
         env = m.environment = (Envs.GridWorld(m, 3, 3) if case['how'] == 'grid_unpositioned' else
                                Envs.SpaceWorld(m, 3.0, 3.0, 0))
@@ -373,7 +397,7 @@ def special_population_case(case):
     real = m.random
     for tmpl in tmpls:
         targs = [types[t] for t in tmpl]
-        for tag in (None, 0, 1, 'np1'):
+        for tag in (tags if case['how'] == 'compound_tags' else (None, 0, 1, 'np1', 2)):
             kw = {} if tag is None else {'tag': tag_value(tag)}
             exp = [a for a in agents if all(T in a.components for T in targs) and (tag is None or a.tag == tag_value(tag))]
             what = f'{case["how"]}: template {list(tmpl)} tag {tag}'
@@ -615,7 +639,7 @@ def run(ctx):
             ctx.report(case, v)
             return
     ctx.leg('class_churn_and_detached_env', cases=len(extra))
-    for how in ('class_component', 'odd_agents', 'grid_unpositioned', 'space_unpositioned'):
+    for how in ('class_component', 'odd_agents', 'compound_tags', 'grid_unpositioned', 'space_unpositioned'):
         case = {'leg': 'special_population', 'how': how}
         ctx.traces += 1
         try:
@@ -624,7 +648,7 @@ def run(ctx):
         except Violation as v:
             ctx.report(case, v)
             return
-    ctx.leg('special_population', cases=4)
+    ctx.leg('special_population', cases=5)
     case = {'leg': 'crowd', 'n': 130 if ctx.small else 1300, 'seed': ctx.seed}
     ctx.traces += 1
     try:
